@@ -124,6 +124,12 @@ World::World(core::Trace &t, uint64_t s) : tr(t), seed(s) {
   K->reset(s);
   K->trace = [this](const char *what, int64_t a, int64_t b) { tr.ev("k %s %lld %lld", what, (long long)a, (long long)b); };
   g_world = this;
+  // the bus blocks (e.g. waiting for a babysitter to report its pid before killing it): what the real world
+  // would do meanwhile is that a freshly forked babysitter reports in
+  K->on_block = [](int64_t) {
+    for (simk::Process *p : K->procs) if (!p->exited && !p->reported) { K->proc_exec_ok(p); return true; }
+    return false;
+  };
   _bus_verif_probe = probe_cb;
   _bus_verif_probe_reply_expired = expired_cb;
   scratch = scratch_dir();
